@@ -335,12 +335,15 @@ MANIFEST = {
                   'for every capacity, call list and file script Ok is returned iff no underlying write failed -- the final flush '
                   'included -- and only with the complete file, the error is that of the first failure, the file always holds a prefix '
                   '(C19_save_path_ok_iff_complete, C19_save_path_full_device, C19_save_path_residue). '
+                  'Re-save clause, composed with C01_full: whatever state a failed save_to / save(path) leaves (for any recorded ids), the document is '
+                  'still in C01\'s domain, a re-save in either format loads, and the loaded document is same_doc to the ORIGINAL document '
+                  '(C19_resave_after_failure_loads, C19_resave_after_failed_save_path_loads). '
                   'Tied to the real save_to by differential runs with scripted sinks at every failure offset, and to the real '
                   'save(path) by runs on a healthy file, a directory, /dev/full and RLIMIT_FSIZE-limited files.',
     'level_note': 'Trusted: Coq kernel; std write_all and BufWriter transcriptions; hand-written model tied by correspondence (result class, '
                   'delivered bytes, max_id/trailer after the save, byte-identity of the re-save); extraction/OCaml driver; Rust harness. '
-                  'What the saved bytes are and that they load back is C01/C03; here the re-save clause is proved at the level of '
-                  'document state and checked end-to-end on the implementation. No axioms.',
+                  'What the saved bytes are and that they load back is C01 (composed: Proofs/ComposeSink.v, for documents of C01\'s domain below 4 GiB); '
+                  'the re-save clause is also checked end-to-end on the implementation. No axioms.',
     'technique': 'Coq proof by induction over sink scripts and call lists + differential correspondence with fault-injecting sinks',
     'design_ref': 'DESIGN.md 6 C19',
 }
